@@ -255,7 +255,19 @@ def mutants(args):
                 missed += 1
         tp = r.get("existing_tests_pass")
         print(f"{m['name']:34s} tests_pass={tp!s:5s} " + "  ".join(cells))
-    json.dump(results, open(os.path.join(VERIF, "mutants", "last_results.json"), "w"), indent=1)
+    lr = os.path.join(VERIF, "mutants", "last_results.json")
+    merged = {}
+    if os.path.exists(lr):
+        try:
+            merged = json.load(open(lr))
+        except Exception:
+            merged = {}
+    for k, v in results.items():
+        # a run without the repository's tests keeps the suite verdict of an earlier run
+        if "existing_tests_pass" not in v and k in merged and "existing_tests_pass" in merged[k]:
+            v["existing_tests_pass"] = merged[k]["existing_tests_pass"]
+        merged[k] = v
+    json.dump(merged, open(lr, "w"), indent=1)
     print(f"mutants: {len(cat)} mutants, {missed} misses/errors ({time.time() - t0:.0f}s)")
     return 1 if missed else 0
 
